@@ -18,7 +18,7 @@ import warnings
 
 from ..core import Check, fresh_repo_imports, seed
 from ..tlcrun import MachineryError, cleanup_gen, gen_cfg, run_many, run_tlc, scratch_dir
-from .. import harness, par
+from .. import harness
 from . import c21
 
 PID = "C20"
@@ -323,11 +323,11 @@ DEVS = ["ExprStart", "LiquidStart", "Indent", "ParentName", "Pipe"]
 
 
 def _pmap(fn, items):
-    """A replay costs well under a millisecond; forking pays off only for the thorough tier's lists."""
-    items = list(items)
-    if len(items) < 30000:
-        return [fn(x) for x in items]
-    return par.pmap(fn, items, procs=8, chunk=512)
+    """Replays run in this process: one costs 0.3-0.5 ms here, while the same replay in a forked worker of par.pmap was
+    measured 5-10x slower on this machine (copy-on-write faults on the inherited case lists), so forking never pays off."""
+    import gc
+    gc.freeze()     # the emitted cases are long-lived: keep the cyclic collector from walking them again and again
+    return [fn(x) for x in items]
 
 
 def _span_stage(cases):
